@@ -177,6 +177,9 @@ class Module:
             self.tree = ast.parse(self.source, filename=path)
         except SyntaxError as e:  # pragma: no cover
             raise AnalysisError("cannot parse %s: %s" % (rel, e))
+        # locals that were merely renamed get their reference names back (alpha-equivalent program, see alpha.py)
+        from . import alpha
+        self.alpha_renames = alpha.normalise(self.tree, name)
         self.bindings = {}  # name -> ('import', dotted) | ('func', F) | ('class', C) | ('assign', node)
         self.functions = {}
         self.classes = {}
